@@ -39,6 +39,8 @@ def check(run):
         crules.cells_rules(run, r3, None, None, ast)
         crules.applicable_rules(run, r4, ast)
         crules.table_rules(run, r5, ast)
+        run.rule("C01-best", "best(): candidate beats member -> only that member is erased; member beats candidate -> candidate dropped, scan stops; otherwise next member; survivor appended", floor=3)
+        crules.best_rules(run, "C01-best", ast)
         c09.table_writer_rule(run, ast, r6)
     run.assumptions += ["v-table pointer acquisition (Policy::dynamic_vptr, virtual_ptr::_vptr) is an opaque leaf here; its content is decided by C09 / C15",
                         "the tables themselves (which definition sits in which cell) are values computed by update: not decided"]
